@@ -12,6 +12,7 @@ cd $WT
 BASE_DEMO=$(PYTHONPATH=$WT timeout 600 /venv/bin/python $D/demo.py >/dev/null 2>&1; echo $?)
 git apply $D/patch.diff || { echo "patch does not apply" > $OUT/FAILED; git -C /repo worktree remove --force $WT; exit 9; }
 SUITE=$(PYTHONPATH=$WT timeout 1800 /venv/bin/python -m pytest -q -p no:cacheprovider --timeout=900 tests 2>&1 | tail -1)
+rm -f $WT/bridgepoint/__oal_parsetab.py $WT/bridgepoint/__oal_lextab.py $WT/xtuml/__xtuml_parsetab.py $WT/xtuml/__xtuml_lextab.py   # demos regenerate the PLY tables from the patched grammar
 MUT_DEMO=$(PYTHONPATH=$WT timeout 600 /venv/bin/python $D/demo.py >/dev/null 2>&1; echo $?)
 cd /verif
 VERIF_REPO=$WT VERIF_OUT=/tmp/seedout_$NAME VERIF_JOBS=${VERIF_JOBS:-8} ./check $P --tier quick > $OUT/check_quick.log 2>&1; RC=$?
